@@ -11,7 +11,7 @@ mon = sys.monitoring
 TOOL = 3
 
 NAME = "histsim"
-STABLE_KEY_FIELDS = ("class", "arg_type")   # key fields that do not depend on minimisation
+STABLE_KEY_FIELDS = ("class", "arg_type", "added_required_only")   # key fields that do not depend on minimisation
 
 
 class SimInterrupt(BaseException):
@@ -80,10 +80,11 @@ FAMILY_W = [6, 3, 2, 3, 1, 1, 2, 3, 3, 5, 1]
 C11_RECIPES = ["plain", "plain", "plain", "nm_camel", "nm_camel_shared", "nm_as_list", "nm_omit_default", "nm_extra_forbid",
                "nm_extra_collect", "chain_node_children", "chain_int_last", "chain_int_shared", "scoped_int",
                "scoped_node_value", "scoped_linked_head", "enum_by_name", "validator_inner", "dumper_int_str", "dumper_scoped",
-               "asis_m2", "unsupported_fix", "nm_snake_only", "chain_int_first", "nm_extra_forbid_all", "flag_names", "nm_scoped_upper", "nm_scoped_upper", "nm_scoped_node", "nm_maps", "nm_maps"]
+               "asis_m2", "unsupported_fix", "nm_snake_only", "chain_int_first", "nm_extra_forbid_all", "flag_names", "nm_scoped_upper", "nm_scoped_upper", "nm_scoped_node", "nm_maps", "nm_maps", "nm_saturator", "nm_paths"]
 REPLACE_OPTS = [{"strict_coercion": True}, {"strict_coercion": False}, {"debug_trail": "ALL"}, {"debug_trail": "FIRST"},
                 {"debug_trail": "DISABLE"}, {"hide_traceback": False}, {"strict_coercion": False, "debug_trail": "FIRST"}]
-CONV_CALL_RECIPES = ["link_b_c", "link_a_c", "coerce_int_str", "coerce_int_hash", "link_title"]
+CONV_CALL_RECIPES = ["link_b_c", "link_a_c", "coerce_int_str", "coerce_int_hash", "link_title", "const_factory", "link_b_cs",
+                     "link_a_cs"]
 CREATION_OPS = ("load", "dump", "get_loader", "get_dumper", "get_converter", "convert")
 
 
@@ -114,7 +115,8 @@ def gen_c11(seed, cfg=None):  # noqa: C901, PLR0912, PLR0915
     morph = [0]
     conv = []
     if rng.random() < 0.25:
-        handles.append({"base": "ConversionRetort", "recipe": rng.choice(["plain", "plain", "link_title", "coerce_int_str"])})
+        handles.append({"base": "ConversionRetort",
+                        "recipe": rng.choice(["plain", "plain", "link_title", "coerce_int_str", "link_b_cs"])})
         conv.append(len(handles) - 1)
     if rng.random() < 0.12:
         handles.append({"base": "global_morphing", "recipe": "plain"})
@@ -125,6 +127,14 @@ def gen_c11(seed, cfg=None):  # noqa: C901, PLR0912, PLR0915
     n_handles = len(handles)
     bases = [h["base"] for h in handles]
     conv_focus = rng.sample(sorted(pools.CONVERTERS), 2)
+    rcp_focus = rng.choice(CONV_CALL_RECIPES)
+    conv_centric = bool(conv) and rng.random() < 0.5
+    if rng.random() < 0.6:
+        # a pair whose outcome is decided by the per-call recipe
+        conv_focus[0], rcp_focus = rng.choice([("CLink", "link_b_c"), ("CLink", "link_a_c"), ("M1Str", "coerce_int_str"),
+                                               ("M1Str", "coerce_int_hash"), ("CTags", "const_factory"),
+                                               ("CLinkStr", "link_b_cs"), ("CLinkStr", "link_a_cs"),
+                                               ("CLinkStr", "coerce_int_str"), ("CLinkStr", "coerce_int_hash")])
     n_ops = rng.randint(2, 14)
     prog = []
     callables = []   # (kind, type or conv)
@@ -142,16 +152,38 @@ def gen_c11(seed, cfg=None):  # noqa: C901, PLR0912, PLR0915
 
     for _ in range(n_ops):
         r = rng.random()
-        if conv and r < 0.35:
+        if conv and r < (0.65 if conv_centric else 0.35):
             h = rng.choice(conv)
-            c = rng.choice(conv_focus) if rng.random() < 0.7 else rng.choice(sorted(pools.CONVERTERS))
+            own_conv = [x for x in conv if bases[x] == "ConversionRetort"]
+            if conv_centric and own_conv and rng.random() < 0.18:
+                # derive from a conversion retort that may already have served per-call recipes
+                h = rng.choice(own_conv)
+                if rng.random() < 0.75:
+                    op = {"op": "extend", "h": h, "recipe": rng.choice(["link_title", "coerce_int_str", "coerce_int_hash",
+                                                                        "link_a_c", "link_b_cs", "link_a_cs"])}
+                else:
+                    op = {"op": "replace", "h": h, "opts": {"hide_traceback": rng.random() < 0.5}}
+                bases.append("ConversionRetort")
+                conv.append(n_handles)
+                n_handles += 1
+                prog.append(op)
+                continue
+            c = conv_focus[0] if conv_centric and rng.random() < 0.8 else (
+                rng.choice(conv_focus) if rng.random() < 0.7 else rng.choice(sorted(pools.CONVERTERS)))
             if rng.random() < 0.5:
                 op = {"op": "get_converter", "h": h, "conv": c}
                 callables.append(("get_converter", c))
             else:
                 op = {"op": "convert", "h": h, "conv": c, "o": rng.choice(pools.CONVERTERS[c][2])}
-            if rng.random() < 0.45:
-                op["rcp"] = rng.choice(CONV_CALL_RECIPES)   # per-call recipe: get_converter(..., recipe=[...])
+            if rng.random() < 0.5:
+                # per-call recipe: get_converter(..., recipe=[...]); mostly this history's favourite one, given as
+                # the same provider objects on every call (a module-level recipe list)
+                if rng.random() < 0.7:
+                    op["rcp"], op["rcp_shared"] = rcp_focus, True
+                else:
+                    op["rcp"] = rng.choice(CONV_CALL_RECIPES)
+                    if rng.random() < 0.5:
+                        op["rcp_shared"] = True
         elif r < 0.10 and callables:
             j = rng.randrange(len(callables))
             k, ct = callables[j]
@@ -161,6 +193,12 @@ def gen_c11(seed, cfg=None):  # noqa: C901, PLR0912, PLR0915
                 op = {"op": "call", "c": j, "o": rng.choice(pools.dump_battery(ct))}
             else:
                 op = {"op": "call", "c": j, "o": rng.choice(pools.CONVERTERS[ct][2])}
+        elif r < 0.16 and conv and rng.random() < 0.4 and any(bases[x] == "ConversionRetort" for x in conv):
+            h = rng.choice([x for x in conv if bases[x] == "ConversionRetort"])
+            op = {"op": "replace", "h": h, "opts": {"hide_traceback": rng.random() < 0.5}}
+            bases.append("ConversionRetort")
+            conv.append(n_handles)
+            n_handles += 1
         elif r < 0.16:
             h = rng.choice(morph)
             if bases[h] == "Retort":
@@ -172,12 +210,20 @@ def gen_c11(seed, cfg=None):  # noqa: C901, PLR0912, PLR0915
                 op = {"op": "gc"}
         elif r < 0.22:
             # the module-level retorts are private objects: a client cannot derive from them
-            h = rng.choice([x for x in morph if bases[x] == "Retort"])
-            op = {"op": "extend", "h": h, "recipe": rng.choice(C11_RECIPES[3:])}
+            own_conv = [x for x in conv if bases[x] == "ConversionRetort"]
+            if own_conv and rng.random() < 0.4:
+                h = rng.choice(own_conv)
+                op = {"op": "extend", "h": h, "recipe": rng.choice(["link_title", "coerce_int_str", "coerce_int_hash", "link_a_c",
+                                                                    "link_b_cs", "link_a_cs"])}
+                bases.append("ConversionRetort")
+                conv.append(n_handles)
+            else:
+                h = rng.choice([x for x in morph if bases[x] == "Retort"])
+                op = {"op": "extend", "h": h, "recipe": rng.choice(C11_RECIPES[3:])}
+                bases.append(bases[h])
+                morph.append(n_handles)
             if rng.random() < 0.2:
                 op["as"] = "generator"
-            bases.append(bases[h])
-            morph.append(n_handles)
             n_handles += 1
         elif r < 0.24:
             op = {"op": "bind_late"}
@@ -216,11 +262,11 @@ C20_TYPES = ["ListInt", "ListListInt", "DictStrListInt", "DDictStrListInt", "Set
              "WithDefaults", "KwModel", "StreamHolder", "TD", "AT", "M1", "Node", "Holder", "Outer1", "GListInt", "MapStrInt",
              "MapStrListInt", "MMapStrListInt", "SeqListInt", "IterListInt", "TupListDict", "TupListEll", "DequeInt", "DictStrM1",
              "DictStrNode", "ListM1", "Tree", "LinkedInt", "SetTupInt", "PM", "SnakeCase", "DDictStrInt", "TupIntEll", "Perm", "M2",
-             "ULM1LM2", "UDM1DM2"]
+             "ULM1LM2", "UDM1DM2", "SatModel", "SatOpt", "SatOpt", "SnakeCase"]
 C20_RECIPES = ["plain", "plain", "nm_extra_collect", "nm_extra_collect", "nm_omit_default", "nm_as_list", "nm_camel",
-               "nm_extra_forbid", "validator_inner", "chain_node_children", "flag_names", "flag_names"]
-C20_CONV = ["Outer", "OuterSame", "Inner", "InnerSame", "ListInner", "GIntGInt", "OptInner", "DictInner", "InnerTags", "M1M2",
-            "CLink", "M1Str"]
+               "nm_extra_forbid", "validator_inner", "chain_node_children", "flag_names", "flag_names", "nm_saturator", "nm_saturator", "nm_paths", "nm_paths"]
+C20_CONV = ["CLinkStr","Outer", "OuterSame", "Inner", "InnerSame", "ListInner", "GIntGInt", "OptInner", "DictInner", "InnerTags", "M1M2",
+            "CLink", "M1Str", "CTags", "CTags", "Ann", "Ann", "AnnList", "AnnDict"]
 
 
 def gen_c20(seed, cfg=None):  # noqa: C901, PLR0912
@@ -246,8 +292,11 @@ def gen_c20(seed, cfg=None):  # noqa: C901, PLR0912
                 callables.append(("get_converter", c))
             else:
                 op = {"op": "convert", "h": 1, "conv": c, "o": rng.choice(pools.CONVERTERS[c][2])}
-            if c in ("CLink", "M1Str") and rng.random() < 0.8:
-                op["rcp"] = rng.choice(["link_b_c", "link_a_c"] if c == "CLink" else ["coerce_int_str", "coerce_int_hash"])
+            if c in ("CLink", "M1Str", "CTags", "CLinkStr") and rng.random() < 0.8:
+                op["rcp"] = rng.choice({"CLink": ["link_b_c", "link_a_c"], "M1Str": ["coerce_int_str", "coerce_int_hash"],
+                                        "CTags": ["const_factory"], "CLinkStr": ["link_b_cs", "coerce_int_str"]}[c])
+                if rng.random() < 0.5:
+                    op["rcp_shared"] = True
         elif r < 0.48 and callables:
             j = rng.randrange(len(callables))
             k, ct = callables[j]
@@ -345,12 +394,13 @@ def _do(retort, d):
         return outcome(retort.get_dumper, pools.TYPES[d["t"]])
     if kind == "get_converter":
         src, dst, _ = pools.CONVERTERS[d["conv"]]
-        return outcome(ops._get_converter, retort, src, dst, d.get("rcp"))
+        return outcome(ops._get_converter, retort, src, dst, d.get("rcp"), d.get("rcp_shared", False))
     if kind == "convert":
-        return outcome(ops._convert, retort, pools.obj(d["o"]), pools.CONVERTERS[d["conv"]][1], d.get("rcp"))
+        return outcome(ops._convert, retort, pools.obj(d["o"]), pools.CONVERTERS[d["conv"]][1], d.get("rcp"),
+                       d.get("rcp_shared", False))
     if kind == "convert_call":
         src, dst, _ = pools.CONVERTERS[d["conv"]]
-        out, fn = outcome(ops._get_converter, retort, src, dst, d.get("rcp"))
+        out, fn = outcome(ops._get_converter, retort, src, dst, d.get("rcp"), d.get("rcp_shared", False))
         return outcome(fn, pools.obj(d["o"])) if out[0] == "ok" else (out, None)
     raise ValueError(d)
 
@@ -460,8 +510,20 @@ def execute(scn, refs):  # noqa: C901, PLR0912, PLR0915
                 after = sig_value(arg)
                 stats["alias_checks"] += 1
                 if after != arg_snap:
-                    violations.append({"class": "argument-mutated", "op_index": i, "op": op, "expected": arg_snap,
-                                       "observed": after, "interrupted": bool(fired_here), "arg_type": tname(type(arg))})
+                    v = {"class": "argument-mutated", "op_index": i, "op": op, "expected": arg_snap,
+                         "observed": after, "interrupted": bool(fired_here), "arg_type": tname(type(arg))}
+                    if isinstance(arg, dict) and "d" in op:
+                        # which keys did the call add to the caller's mapping, and are they all required fields?
+                        added = sorted(str(k) for k in set(arg) - set(pools.DATA[op["d"]]))
+                        tn = op.get("t") or (_call_as_op(world, op).get("t") if kind == "call" else None)
+                        req = pools.required_fields(tn) if tn else None
+                        v["added_keys"] = added
+                        # external keys may be renamed by a name mapping, so the test is by count when names differ:
+                        # a lookup of a missing *required* key inserts it (finding F2); more insertions than the
+                        # model has required fields means optional lookups insert keys too
+                        v["added_required_only"] = bool(added) and req is not None and (
+                            set(added) <= req or len(added) <= len(req))
+                    violations.append(v)
                 allowed = alias.allowed_shared(op if kind != "call" else _call_as_op(world, op), arg,
                                                recipes_of[plain[i].get("h", 0)] if kind != "call" else
                                                _call_recipes(world, op, recipes_of))
@@ -699,7 +761,7 @@ def finding_key(scn, result, v=None):
     v = v or result["violations"][0]
     op = v.get("op") or {}
     return {"class": v["class"], "op": op.get("op"), "type": op.get("t") or op.get("conv"), "types": _types_of(scn),
-            "arg_type": v.get("arg_type"), "op_kinds": [o["op"] for o in scn["ops"]], "faults": [f.get("exc", "base") for f in scn.get("faults", [])],
+            "arg_type": v.get("arg_type"), "added_required_only": v.get("added_required_only"), "op_kinds": [o["op"] for o in scn["ops"]], "faults": [f.get("exc", "base") for f in scn.get("faults", [])],
             "recipes": sorted({h.get("recipe", "plain") for h in scn["handles"]} | {
                 o["recipe"] for o in scn["ops"] if o["op"] == "extend"})}
 
